@@ -20,6 +20,7 @@ Four kinds of case
             untouched and in order, named ones are replaced / renamed / deleted as the rule says"""
 import json
 import os
+import re
 import string
 
 from . import common
@@ -249,12 +250,16 @@ def exc_name(e):
     return "EXC:" + n
 
 
-def strip_block(text, n):
-    """Drop the n comment lines that follow the header (creator, time, eups version, column titles)."""
-    ls = text.split("\n")
-    if len(ls) > n and all(l.startswith("#") for l in ls[1:1 + n]):
-        return "\n".join(ls[:1] + ls[1 + n:])
-    return text
+MAN_BLOCK = re.compile(r"\n#\n# Creator:[^\n]*\n# Time:[^\n]*\n# Eups version:[^\n]*\n#\n# pkg[^\n]*\n#-{20,}(?=\n)")
+TAG_BLOCK = re.compile(r"\n#product +flavor +version\n#-{20,}(?=\n)")
+
+
+def strip_block(text, which):
+    """Drop the comment block that follows the header (creator, time, eups version, column titles): the first
+    occurrence of exactly that block, wherever the header line ends."""
+    if which is None:
+        return text
+    return which.sub("", text, count=1)
 
 
 def impl_manifest(c):
@@ -271,7 +276,7 @@ def impl_manifest(c):
         return {"write": "EXC:" + type(e).__name__}
     with open(path, newline="", encoding="utf-8") as f:
         raw = f.read()
-    out = {"text": strip_block(raw, 7), "raw": raw}
+    out = {"text": strip_block(raw, MAN_BLOCK), "raw": raw}
     m2 = server.Manifest(eupsenv=E, verbosity=-1)
     try:
         m2.read(path, setproduct=True, shouldRecurse=c["recurse"])
@@ -295,7 +300,7 @@ def impl_taglist(c):
         return {"write": "EXC:" + type(e).__name__}
     with open(path, newline="", encoding="utf-8") as f:
         raw = f.read()
-    out["text"] = strip_block(raw, 2)
+    out["text"] = strip_block(raw, TAG_BLOCK)
     out["raw"] = raw
     try:
         t2 = server.TaggedProductList.fromFile(path, c["tag"], flavor=c["readFlavor"])
@@ -580,7 +585,7 @@ def model_output(c, io_, answers):
     if any("bad-op" in a for a in answers):
         return {"bad-op": [a.get("bad-op") for a in answers]}
     if k == "manifest":
-        out = {"text": strip_block(answers[0]["text"], 0)}
+        out = {"text": answers[0]["text"]}
         if len(answers) > 1:
             out["read"] = answers[1]
         return out
